@@ -10,6 +10,9 @@ the documented representation invariant `Inv` (every state reachable through the
 `bits W c : List Bool` is the abstraction (all bits on the coder, first written first).
 Exp-Golomb: every symbol width `1 ≤ N < 2^32` (`EG.ValidN`).
 -/
+set_option linter.unusedSimpArgs false
+set_option linter.unusedVariables false
+set_option linter.unnecessarySimpa false
 namespace CV.Bits.C16
 open CV CV.Bits
 
@@ -224,7 +227,7 @@ example :
         .decode (EG.decBook 8), .read, .read], op.Lawful) ∧
     (run (Stack.step 8) [SOp.write true, .encode (EG.suffixBits 8 255), .len, .getCompressed,
         .reimport, .decode (EG.decBook 8), .read, .read] empty).1 =
-      [.unit, .unit, .nat 18, .words [6, 2, 1], .words [6, 2, 1], .sym (.ok 255), .bit (some true),
+      [.unit, .unit, .nat 18, .words [4, 2, 1], .words [4, 2, 1], .sym (.ok 255), .bit (some true),
         .bit none] := by
   refine ⟨?_, by decide⟩
   intro op hop
